@@ -25,7 +25,7 @@ from harness import parse
 from harness import surface
 
 DEPS = checks_seq.MODEL + ['Spec/Pipeline.v', 'Spec/ExcSpec.v', 'Proofs/C04.v', 'Proofs/C16.v', 'Proofs/C15.v', 'Proofs/C15x.v',
-                            'Model/Parse.v', 'Proofs/C15p.v', 'Model/Json.v', 'Gen/GenSchemas.v']
+                            'Model/Parse.v', 'Proofs/C15p.v', 'Model/Json.v', 'Gen/GenSchemas.v', 'Model/Decode.v', 'Proofs/C15s.v']
 U = ops.uuid_of
 SVC = {'x-roles': 'admin,service'}
 REJECT = (400, 404, 405, 406, 415)
@@ -377,7 +377,7 @@ def run(pid, tier, out):
              'mutation': collections.Counter(), 'distinct': set()}
     probs = []
     known_hits = []
-    n = 700 if tier == 'quick' else 12000
+    n = 500 if tier == 'quick' else 12000
     rounds = 1 if tier == 'quick' else 6
     for rnd in range(rounds):
         app = impl.App()
@@ -418,7 +418,7 @@ def run(pid, tier, out):
     pstats, pdis, pn_cases = {}, [], 0
     if common.vo_fresh('Model/Parse.v'):
         try:
-            pn_cases, pdis, pstats = parse.run(seed + 1515, 500 if tier == 'quick' else 8000, tag='C15_%s' % tier)
+            pn_cases, pdis, pstats = parse.run(seed + 1515, 350 if tier == 'quick' else 8000, tag='C15_%s' % tier)
         except Exception as exc:      # noqa
             corr_error = (corr_error or '') + ' parse stream: %s' % str(exc)[-600:]
     else:
@@ -433,13 +433,27 @@ def run(pid, tier, out):
             corr_error = (corr_error or '') + ' schema stream: %s' % str(exc)[-600:]
     else:
         corr_error = (corr_error or '') + ' Model/Json.v or Gen/GenSchemas.v did not build'
+    # (5) the decoders of Model/Decode.v against the bodies the harness sends, and the schema each handler really uses at
+    #     each minor version (learnt from the running code) against Decode.schema_of_*
+    dn, ddis, dkinds, sc_n, sc_err = 0, [], {}, 0, None
+    if common.vo_fresh('Model/Decode.v'):
+        try:
+            from harness import decode as decode_mod
+            dn, ddis, dkinds = decode_mod.decode_stream(seed + 1517, 8 if tier == 'quick' else 120, 30, 'C15_%s' % tier)
+            sc_n, sc_err = decode_mod.schema_choice('C15_%s' % tier)
+        except Exception as exc:      # noqa
+            corr_error = (corr_error or '') + ' decode stream: %s' % str(exc)[-600:]
+        if sc_err:
+            corr_error = (corr_error or '') + ' schema choice: %s' % sc_err[-600:]
+    else:
+        corr_error = (corr_error or '') + ' Model/Decode.v did not build'
     for e in pstats.get('escapes', [])[:3]:
         probs.append({'state': 'none', 'index': -1, 'request': {'parser_case': e['case']}, 'kind': 'parser-escape',
                       'text': 'query-string value parser raised %s instead of HTTPBadRequest on %r' % (e['exception'], e['case']),
                       'status': 500})
 
     proof_broken = (not ps['ok']) or bool(hyg) or not ok_tr
-    tie_broken = bool(disagreements) or bool(pdis) or bool(sdis) or corr_error is not None
+    tie_broken = bool(disagreements) or bool(pdis) or bool(sdis) or bool(ddis) or corr_error is not None
     for f, name, m in known_hits[:1]:
         out.known_finding('GET /allocation_candidates -> 500 KeyError with a nested sharing provider (%d requests of this run)'
                           % len(known_hits))
@@ -475,8 +489,9 @@ def run(pid, tier, out):
                 d0 = {'ops': [checks_seq.op_json(c[0]) for c in cases[ci][:step + 1]],
                       'impl_observation': cases[ci][step][1], 'impl_dump': cases[ci][step][2]}
             out.violation({'kind': 'correspondence-broken',
-                           'stream': 'histories/default' if disagreements else 'parse' if pdis else 'schemas' if sdis else 'build',
+                           'stream': 'histories/default' if disagreements else 'parse' if pdis else 'schemas' if sdis else 'decode' if ddis else 'build',
                            'first_disagreement': d0, 'parser_disagreements': pdis[:5], 'schema_disagreements': sdis[:5],
+                           'decode_disagreements': ddis[:5],
                            'error': corr_error},
                           'model and implementation disagree (%d histories, %d parser cases, %d schema documents) and neither oracle '
                           'found a failing input' % (len(disagreements), len(pdis), len(sdis)), no_input=True)
@@ -507,7 +522,9 @@ def run(pid, tier, out):
            'known_finding_hits': len(known_hits), 'problems': len(probs),
            'boundary_variants_over_http': n_boundary, 'parser_cases': pn_cases, 'parser_disagreements': len(pdis), 'parser_cases_by_kind': pstats.get('by_kind'),
            'parser_builtin_table_discrepancies': pstats.get('table_discrepancies'),
-           'schema_documents': sn_cases, 'schema_disagreements': len(sdis), 'schema_stats': sstats}
+           'schema_documents': sn_cases, 'schema_disagreements': len(sdis), 'schema_stats': sstats,
+           'decoded_bodies': dn, 'decode_disagreements': len(ddis), 'decoded_by_kind': dkinds,
+           'schema_choice_facts': sc_n, 'schema_choice_error': sc_err}
     common.write_evidence('C15', tier, 'proof', cov, t.s(), len(out.violations),
                           assumptions=['SQLite as the database', 'requests are delivered through webob (inputs webob cannot build are skipped)',
                                        'stored state = the nine core tables (project/user/consumer-type name rows excluded, as in C04)'])
